@@ -10,6 +10,7 @@ Not decided: the byte values themselves (C01/C16), BufWriter flush-on-drop in wr
 """
 import re
 from engine import op_place, proj_key, AnchorLost
+from terms import TermBuilder, render
 from common import result_consumed, is_result_ty, fmt_key, switch_info, reach_from, ok_assign_blocks
 
 WRITE_ROOTS = ["Package::write", "Package::write_file", "PackageMetadata::write"]
@@ -194,11 +195,80 @@ def run(f, fixture, rep, cfg, tier):
         rep.check(ok, "R4", "%s|count" % fmt_key(b.path),
                   "%s returns the inner count (%s)" % (b.path, why),
                   "%s: %s - a partial inner write would be reported as complete (or vice versa)" % (b.path, why), b.span)
+    # an adapter's own byte accounting (position / written counters) advances by what the inner writer accepted, after it accepted
+    # it: a counter bumped by the offered length before the inner call is wrong after every short write or retried error
+    for b in adapters:
+        tb_ = TermBuilder(b)
+        selfs = b.self_aliases() if hasattr(b, "self_aliases") else {1}
+        inner = [c for c in b.calls() if c.decl in ("std::io::Write::write", "std::io::Write::write_all")]
+        for bb in sorted(b.reachable()):
+            for st in b.stmts(bb):
+                if st["k"] != "assign" or not st["lhs"]["p"] or st["lhs"]["l"] not in selfs:
+                    continue
+                fld = [p_.get("n") for p_ in st["lhs"]["p"] if isinstance(p_, dict) and "n" in p_]
+                rv = st["rv"]
+                t_ = render(tb_.term(rv["o"])) if rv["r"] in ("use", "cast") else (render(tb_.term(rv["a"])) + " " + render(tb_.term(rv["b"])) if rv["r"] == "bin" else "")
+                if rv["r"] == "use" and op_place(rv["o"]) is not None:
+                    # `x.0` of a checked addition: look at the addition
+                    t_ = render(tb_.term(rv["o"]))
+                if not re.search(r"(Add|Sub)(WithOverflow|Unchecked)?\(", t_) and rv["r"] != "bin":
+                    continue
+                after = any(b.dominates(c.bb, bb) and c.bb != bb for c in inner)      # statements of the call's own block run before it
+                ok_ = "std::io::Write::write(" in t_ and after
+                rep.check(ok_, "R4", "%s|accounting|%s" % (fmt_key(b.path), ".".join(map(str, fld))), "%s advances self.%s by the inner writer's count" % (fmt_key(b.path), ".".join(map(str, fld))),
+                          "%s updates self.%s with %s %s: after a short or failed inner write the adapter's position no longer matches what was written" % (
+                              b.path, ".".join(map(str, fld)), t_[:120], "before the inner write" if not after else "instead of the accepted count"), "%s:%s" % (b.file, st.get("line")))
     flushers = [b for b in f.body_list if b.impl_trait == IO_WRITE and b.name == "flush"]
     for b in flushers:
         fl = [c for c in b.calls() if c.decl == "std::io::Write::flush"]
         rep.check(len(fl) >= 1, "R4", "%s|flush" % fmt_key(b.path), "%s forwards flush" % b.path,
                   "%s does not forward flush to the inner writer" % b.path, b.span)
+
+    # R7 an emission's failure ends the emission: the Result of every write on the cone is propagated on the spot (`?`, or returned
+    # as the function's result) - never folded into an accumulator or combined with `and` / `or`, which evaluate the next write
+    # before looking at the previous verdict (the sink would then receive bytes after a hole)
+    rep.rule("R7", "a failed write stops the emission at once")
+    EMIT = r"(std::io::Write::write_all|IndexHeader::write|IndexEntry::<T>::write_index|Header::<T>::write|write_signature|lead::Lead::write|PackageMetadata::write)$"
+    n_em = 0
+
+    def stops(b, local, seen, depth=0):
+        if local in seen or depth > 10:
+            return True, "cycle"
+        seen.add(local)
+        if local in b.return_aliases():
+            return True, "returned"
+        for (bb, idx, role, payload, pl) in b.uses(local):
+            if role == "drop" or role in ("discr", "switch"):
+                continue
+            if isinstance(role, tuple) and role[0] == "arg":
+                c2 = b.call_at(bb)
+                if c2.decl == "std::ops::Try::branch":
+                    continue
+                if re.search(r"Result::<T, E>::(map_err|map|and_then|or_else|inspect_err)$", c2.decl) and role[1] == 0 and c2.dest and not c2.dest["p"]:
+                    ok2, how2 = stops(b, c2.dest["l"], seen, depth + 1)
+                    if not ok2:
+                        return False, how2
+                    continue
+                return False, "handed to %s" % c2.decl
+            if role in ("use", "cast") and isinstance(payload, dict) and payload.get("k") == "assign" and not payload["lhs"]["p"]:
+                tl = payload["lhs"]["l"]
+                if len([d for d in b.defs(tl) if not d[4]]) > 1 and tl not in b.return_aliases():
+                    return False, "kept in a variable that is assigned on several paths (an accumulator)"
+                ok2, how2 = stops(b, tl, seen, depth + 1)
+                if not ok2:
+                    return False, how2
+                continue
+            if role in ("agg",):
+                return False, "stored in an aggregate"
+        return True, "propagated"
+    for b in list(non_adapter.values()) + [cb for b0 in non_adapter.values() for cb in f.closures_of(b0)]:
+        for c in b.calls():
+            if re.search(EMIT, c.decl) and c.dest is not None and not c.dest["p"]:
+                n_em += 1
+                ok_, how_ = stops(b, c.dest["l"], set())
+                rep.check(ok_, "R7", "%s|stops-on-error|%s" % (fmt_key(b.path), c.decl.rsplit("::", 1)[-1]), "%s propagates the verdict of %s at once" % (fmt_key(b.path), c.decl.rsplit("::", 1)[-1]),
+                          "%s: the result of %s is %s instead of being propagated on the spot: after a failed write the following fields are still sent to the sink" % (b.path, c.decl, how_), c.loc())
+    rep.floor("R7", "emission calls on the write cone", n_em, 20)
 
     # R6 buffered sinks created on the cone are flushed before they are dropped (Drop swallows the flush error)
     rep.rule("R6", "a BufWriter created on the write cone is explicitly flushed with its error propagated")
@@ -255,7 +325,6 @@ def run(f, fixture, rep, cfg, tier):
         for c in b.calls():
             if c.decl != "std::io::Read::take":
                 continue
-            from terms import TermBuilder, render
             tb = TermBuilder(b)
             want = render(tb.term(c.args[1]))
             guarded = False
